@@ -27,4 +27,13 @@ CHECKS['C12'] = {
   'technique': 'CFG reachability (mutation-before-raise), pointer-origin/effect summaries, guard dominance cuts, sibling tables',
 }
 
+CHECKS['C20'] = {
+  'text': 'Decides the closed-handle typestate structurally: every stdio call on the handle field in the File/Process slot '
+          'functions is dominated by the closed test that raises IOError; close clears the handle on every normal exit; '
+          'destructor/open/with pair with close; each stream operation delegates to the matching stdio call on the object\'s '
+          'own handle with error translation. Does not decide data round-trip (stdio behaviour).',
+  'note': ASSUME,
+  'technique': 'guard-dominance cuts on the CFG, must-pass-through, sibling/delegation tables over type-class slots, macro witness',
+}
+
 NOT_APPLICABLE = {}
